@@ -422,9 +422,14 @@ func runC05(t *testing.T, c Case) kit.Verdict {
 						return
 					}
 					if !had {
-						// a matching filter that nobody sent: only
-						// possible from an earlier verified fetch
-						v.Class("call:ok-from-cache-or-db")
+						// No peer has put the correct filter for this block
+						// on the wire as a regular-type cfilter at any time
+						// of the run, so it cannot come from an earlier
+						// verified fetch either: the client has accepted a
+						// message it must ignore (e.g. one labelled with
+						// another filter type).
+						fail("returned-unsent", "GetCFilter(%d) returned the block's filter although no peer ever sent it in a regular-type cfilter message: a response for another filter type (or otherwise to be ignored) was accepted", cl.Height)
+						return
 					}
 					// asking again gives the same filter
 					f2, err2 := s.CS.GetCFilter(n.Hash, wire.GCSFilterRegular)
@@ -592,8 +597,9 @@ func runC06(t *testing.T, c Case) kit.Verdict {
 	}
 	var mu sync.Mutex
 	reqCount := map[int]int{}
-	sentInvalid := map[int]bool{} // peer sent a block with the requested header that is invalid
-	validSent := map[string]int{} // "peer/hash" -> valid copies of that block sent so far
+	sentInvalid := map[int]bool{}        // peer sent a block with the requested header that is invalid
+	validSent := map[string]int{}        // "peer/hash" -> valid copies of that block sent so far
+	attempts := map[chainhash.Hash]int{} // getdata requests seen for a block, over all peers
 	sentValid := map[int]bool{}
 	sentAnyInvalid := map[int]bool{} // peer sent some invalid block with a requested header
 	invalidBeforeValid := false
@@ -633,6 +639,9 @@ func runC06(t *testing.T, c Case) kit.Verdict {
 						return corruptBlock(n, other(i), kind)
 					})
 					v.Logf("peer %d request %d getdata(block %d): %v -> %d messages", pi, k, n.Height, notes, len(out))
+					mu.Lock()
+					attempts[n.Hash]++
+					mu.Unlock()
 					// The client hands each received message to the
 					// query in a goroutine of its own, so messages of
 					// one response may be examined in any order and
@@ -744,6 +753,21 @@ func runC06(t *testing.T, c Case) kit.Verdict {
 					}
 				} else {
 					v.Class("call:error")
+					if hasHonest(c) {
+						v.Class("call:error-although-an-honest-peer-is-connected")
+						v.Logf("  (an honest peer was connected: peers=%d)", len(c.Edits))
+						// "the request is retried with other peers": with a
+						// peer connected that answers every request correctly,
+						// the call may only give up after its retry budget
+						// (NumRetries(3): three requests on the wire).
+						mu.Lock()
+						na := attempts[n.Hash]
+						mu.Unlock()
+						if na < 3 {
+							fail("gave-up-early", "GetBlock(%d) failed (%v) after only %d request(s) for the block although a peer that answers every request correctly is connected and the retry budget is 3", cl.Height, r.err, na)
+							return
+						}
+					}
 				}
 			}
 			// every cached block is valid
